@@ -196,6 +196,10 @@ def conform(T, case, values, compare_hidden=None):
         return None
     if mk_kind == "symbolic":
         return "model: %s" % mr
+    if mk_kind == "raise" and rk != "raise" and isinstance(mr, (TypeError, AttributeError, NotImplementedError, NameError)):
+        # a type-confusion error in the model run that the real run does not have: an operation on a model
+        # object that Python could not resolve - a gap of the model, not a disagreement about the code
+        raise C.Unsupported("model gap in the concrete reading: %r" % (mr,))
     if mk_kind == "raise" or rk == "raise":
         if mk_kind == "raise" and rk == "raise" and type(mr).__name__ == type(rr).__name__:
             return None
